@@ -8,7 +8,7 @@ use crate::{for_both, Ctx};
 use blsful::*;
 use serde_json::json;
 
-pub const RULE: &str = "keys = edge scalars E + magnitude boundaries (2^32, 2^64-1, 2^64, 2^248, 0x73*2^248 quick; 2^k-1, 2^k, 2^k+1 thorough) + random pool (12 quick / 100 thorough), both groups. Per key: proof_of_possession twice (determinism), verify against own key (library and reference PopVerify), byte equality with reference PopProve; every ORDERED pair of distinct keys in the pool: proof of i against key j must fail (library and reference); every negative question is asked three times in a row, directly after an accepted one (an acceptance on any attempt counts); perturbations of the proof point: +G, negation, doubling, P+pop(other), a plain signature (each scheme) over the public-key bytes, re-encoded (must still pass). History clusters (3 quick / 48 thorough per group, shared with C01/C03): prove and verify possession (own key, another key) next to signing and verifying under every scheme and both group assignments, every ordered pair (a,b) as a,b,b,a with the reference's answers. Distinct by (suite, kind, pk, proof); non-trivial = both points decode and the pairing equation decides.";
+pub const RULE: &str = "keys = edge scalars E + magnitude boundaries (2^32, 2^64-1, 2^64, 2^248, 0x73*2^248 quick; 2^k-1, 2^k, 2^k+1 thorough) + random pool (12 quick / 100 thorough), both groups. Per key: proof_of_possession twice (determinism), verify against own key (library and reference PopVerify), byte equality with reference PopProve; every ORDERED pair of distinct keys in the pool: proof of i against key j must fail (library and reference); every negative question is asked three times in a row, directly after an accepted one (an acceptance on any attempt counts); perturbations of the proof point: +G, negation, doubling, P+pop(other), a plain signature (each scheme) over the public-key bytes, the proof moved by a cofactor-torsion point presented as bytes to all three decoders, re-encoded (must still pass). History clusters (3 quick / 48 thorough per group, shared with C01/C03): prove and verify possession (own key, another key) next to signing and verifying under every scheme and both group assignments, every ordered pair (a,b) as a,b,b,a with the reference's answers. Distinct by (suite, kind, pk, proof); non-trivial = both points decode and the pairing equation decides.";
 
 pub fn run(ctx: &mut Ctx) {
     for_both!(run_suite, ctx);
@@ -143,6 +143,26 @@ fn run_suite<C: Suite>(ctx: &mut Ctx) {
                     x
                 });
                 ctx.hit(&format!("{n}/{}", if expect { "reencoded" } else { "perturbed" }), &[pkb, &qb]);
+            }
+        }
+        // the proof moved by a point of the cofactor torsion (T = [r]Q for a curve point Q outside
+        // the subgroup): P + T is not a subgroup point and, where T pairs trivially, satisfies the
+        // verification equation - it only exists as BYTES, so it goes through every decoder; a
+        // decoder may refuse it (C16) but whatever is decoded must not verify
+        if let Some(qb) = refimpl::non_subgroup_points::<RSig<C>>(11, 1).pop() {
+            if let Some(q0) = RSig::<C>::dec_unchecked(&qb) {
+                let t = q0.mul(&-RS::ONE).add(q0);
+                if !t.is_id() {
+                    let moved = p.add(t).enc();
+                    let via_bytes = ProofOfPossession::<C>::try_from(moved.as_slice()).ok();
+                    let via_bare: Option<ProofOfPossession<C>> = serde_bare::from_slice(&moved).ok();
+                    let via_json: Option<ProofOfPossession<C>> = serde_json::from_str(&format!("\"{}\"", hex::encode(&moved))).ok();
+                    for (cn, v) in [("bytes", via_bytes), ("bare", via_bare), ("json", via_json)] {
+                        let accepted = matches!(v, Some(x) if x.verify(pk).is_ok());
+                        ctx.expect(!accepted, &format!("C09/perturbed-accepted/{n}/P+torsion-point/{cn}"), || { let mut x = d("a proof moved by a cofactor-torsion point verifies"); x["perturbed_proof"] = json!(hex::encode(&moved)); x["decoder"] = json!(cn); x });
+                        ctx.hit(&format!("{n}/perturbed"), &[b"torsion", cn.as_bytes(), pkb, &moved]);
+                    }
+                }
             }
         }
         // all three decoders of the proof must give a verifying value
